@@ -204,6 +204,8 @@ def run(rep: vlib.Reporter, tier: str, seed: int) -> None:
                            "deferred": {**info2, "cases": len(dc)}})
 
     specs, gstats = gen_specs(rng, 60 if big else 10)
+    from harness import daggen
+    specs += [daggen.gen_shared_upload(rng) for _ in range(8 if big else 2)]   # one uploaded table, several readers, the last one late
     dist: Dict[str, Any] = {"specs": len(specs), "runs": 0, "by_mode": {}, "left_threads": {}, "left_procs": 0,
                             "runs_leaving_store_keys": 0, "premature_drop_errors": 0}
     reps = 3 if big else 1
